@@ -149,7 +149,10 @@ def run_rotation(spec):
             return Out(ok=False, msg="D(-q) != conj D(q) with %s NAC at q=%s" % (nac, q.tolist()))
     ev = np.linalg.eigvalsh(d)
     sc = max(np.abs(ev).max(), nat)
-    tol = max(1e-9, 2000 * noise) if nac != "gonze" else 1e-6
+    tol = max(1e-9, 2000 * noise)
+    if nac == "gonze":  # precision of the truncated reciprocal sum, see C08
+        w = np.linalg.eigvalsh((eps + eps.T) / 2)
+        tol = max(1e-6, 30 * 1e-10 ** (w.min() / (w.sum() / 3)))
     rs = np.unique(own_ops(scell)[0], axis=0)
     pm = prim.primitive_matrix  # relative to the supercell
     ops = []
@@ -252,6 +255,8 @@ def run_scaling(spec):
     ev1p = np.linalg.eigvalsh(_D(ph, q, "Py"))
     want = ev0 * (s / t)
     sc = np.abs(fc).max() / m0.min() * (s / t)  # natural scale of D entries after scaling
+    if not sc > 0:
+        return Out(nontrivial=False, classes=["discarded_zero_model"])  # a lone atom with the sum rule: all force constants vanish
     e = max(np.abs(ev1 - want).max() / sc, np.abs(ev1p - want).max() / sc)
     if not e < 1e-9:
         return Out(ok=False, info={"err": e}, msg="eigenvalues do not scale by s/t: rel err %.3e for s=%.3e t=%.3e" % (e, s, t))
